@@ -304,6 +304,25 @@ class Ref:
             if co is not None and co.status in ("suspended", "dead"):
                 del self.slots[k]
             self.here("close")
+        elif c == "sub":
+            # d deeper frames holding n temporary coroutines only in locals: they behave like any other
+            # coroutine (started, collected around, resumed round robin, finished, destroyed); nothing else changes
+            d, n = a
+            n = min(n, 6)
+            reg = "true" if self.gc else "false"
+            self.here("sub", d, n)
+            for i in range(n):
+                self.here("sub.r", i, 0, "true", "true", (100 * d + i) * 10 + 1, "suspended")
+            self.here("sub.gc")
+            for i in range(n):
+                self.here("sub.st", i, "suspended", 0, reg)
+            for i in range(n):
+                self.here("sub.r", i, 1, "true", "true", (100 * d + i) * 10 + 2, "suspended")
+            self.here("sub.gc")
+            for i in range(n):
+                self.here("sub.r", i, 2, "true", "true", (100 * d + i) * 10 + 3, "dead")
+            for i in range(n):
+                self.here("sub.end", i, "true", "")
         elif c == "gc":
             self.here("gc")
         elif c == "end":
